@@ -40,3 +40,43 @@ Fixpoint le_value (bytes : list N) : N :=
   end.
 Definition read_le (img : list N) (off n : nat) : option N :=
   if Nat.leb (off + n) (List.length img) then Some (le_value (firstn n (skipn off img))) else None.
+
+(** * [ReadTXTRegisters] (txt.go)
+
+    TXT configuration space layout: register ID, offset, size in bytes (constants
+    *RegisterOffset in pkg/registers/txt_*.go and the Go type each reader decodes), in the order
+    of the table [supportedTXTRegistersIDs] — which is ordered by NAME of the Go identifier, not
+    by offset: TXT.PUBLIC.KEY (the last register of the space) is the fifth entry. *)
+Open Scope string_scope.
+Definition txt_layout : list (string * nat * nat) := [
+  ("ACM_POLICY_STATUS", 888, 8); ("ACM_STATUS", 808, 4); ("TXT.DPR", 816, 4); ("TXT.ERRORCODE", 48, 4);
+  ("TXT.PUBLIC.KEY", 1024, 32); ("TXT.STS", 0, 8); ("TXT.ESTS", 8, 1); ("TXT.SPAD", 160, 8);
+  ("TXT.VER.FSBIF", 256, 4); ("TXT.VER.EMIF", 512, 4); ("TXT.DIDVID", 272, 8); ("TXT.SINIT.BASE", 624, 4);
+  ("TXT.SINIT.SIZE", 632, 4); ("TXT.MLE.JOIN", 656, 4); ("TXT.HEAP.BASE", 768, 4); ("TXT.HEAP.SIZE", 776, 4)
+]%nat.
+Close Scope string_scope.
+
+(** Why one reader fails: every reader is [binary.Read] of [n] bytes from a [bytes.Reader]
+    positioned at [off] ([data.from(off)], [data[0:]] for TXT.STS, [Seek] for
+    ACM_POLICY_STATUS): no byte left gives [io.EOF], fewer than [n] bytes
+    [io.ErrUnexpectedEOF].  No reader panics, whatever the image length. *)
+Inductive read_err := ErrEOF | ErrUnexpectedEOF.
+Definition read_err_of (img : list N) (off : nat) : read_err :=
+  if Nat.leb (List.length img) off then ErrEOF else ErrUnexpectedEOF.
+
+(** [ReadTXTRegisters]: every entry of the table is tried, in table order, whatever happened to
+    the entries before it; a register that was read is appended to the result, a failure to the
+    [MultiError] (which is returned iff it is not empty) — and the loop goes on.  First
+    component: the collection (ID, raw value); second: the failures (ID, reason). *)
+Fixpoint read_regs (layout : list (string * nat * nat)) (img : list N)
+  : list (string * N) * list (string * read_err) :=
+  match layout with
+  | [] => ([], [])
+  | (id, off, n) :: t =>
+      let r := read_regs t img in
+      match read_le img off n with
+      | Some v => ((id, v) :: fst r, snd r)
+      | None => (fst r, (id, read_err_of img off) :: snd r)
+      end
+  end.
+Definition read_txt (img : list N) := read_regs txt_layout img.
